@@ -87,6 +87,13 @@ def gen_case(rng, c, tag):
         kinds = [rng.choice(KINDS[mix]) for _ in range(k)]
         if sum(1 for x in kinds if x != "idle") >= 2 and kinds.count("crasher") <= 1:
             break
+    # a parameter sweep: the same indicator strategy under the same column name with different windows
+    sweep = "indicator" in KINDS[mix] and rng.random() < 0.4
+    if sweep:
+        slots = rng.sample(range(k), 2)
+        for i in slots:
+            kinds[i] = "indicator"
+    windows = rng.sample(range(2, 8), k) if k <= 6 else [rng.randint(2, 7) for _ in range(k)]
     strategies = []
     for i, kind in enumerate(kinds):
         s = {"name": f"s{i}", "kind": kind, "seed": f"{tag}/s{i}", "act": rng.choice([0.35, 0.6, 0.9]), "bars": bars}
@@ -94,7 +101,7 @@ def gen_case(rng, c, tag):
             s["crash_bar"] = rng.randint(1, bars - 1)
             s["crash_exc"] = rng.choice(["ZeroDivisionError", "DemeterError", "KeyError"])
         if kind == "indicator":
-            s["window"] = rng.randint(2, 4)
+            s["window"] = min(windows[i], max(2, bars - 1))
             s["above"] = rng.random() < 0.5
         strategies.append(s)
     hashseed = rng.randint(1, 10**6)
